@@ -518,7 +518,8 @@ def check_C10(tier, seed):
                       'REFUTED as stated and recorded as known findings: grad_grad_B_tensor_cylindrical() returns the Frenet-frame array (theorem C10_cylindrical_is_frenet; the only test of it pins exactly that), so the Cartesian variant '
                       'is the rotation of Frenet components. In vacuum (I2 = p2 = 0) the tensor is fully symmetric and harmonic (props/C10_vacuum*.v: from the sigma equation, its derivative, and the two O(r^2) ODEs entering as explicit certificates a*E1 + b*E2). '
                       'Hypotheses: admissibility (sG^2 = spsi^2 = 1, etabar, curvature, d_varphi_d_phi non-zero, B0 > 0, |G0|/B0 > 0), constant scalar inputs, sigma equation solved.',
-                      gprops=False, seq_obligations=['props/C10_spec.v', 'props/C10_common.v', 'props/C10_vacuum_common.v', ['props/C10.v', 'props/C10_vacuum_Bt.v', 'props/C10_vacuum_ode.v'], 'props/C10_vacuum.v'],
+                      gprops=False, seq_obligations=['props/C10_spec.v', 'props/C10_common.v', ['props/C10_two_a.v', 'props/C10_two_b.v', 'props/C10_sym_div.v', 'props/C10_tangent.v', 'props/C10_scale_api.v', 'props/C10_vacuum_common.v'],
+                                                     ['props/C10.v', 'props/C10_vacuum_Bt_a.v', 'props/C10_vacuum_Bt_b.v', 'props/C10_vacuum_Bt_c.v', 'props/C10_vacuum_ode_a.v', 'props/C10_vacuum_ode_b.v'], 'props/C10_vacuum.v'],
                       ncorr=(6 if tier == 'quick' else 40),
                       theorems=['C10_two_ways', 'C10_sym12', 'C10_divfree', 'C10_tangent_contraction', 'C10_scale_length', 'C10_cylindrical_is_frenet', 'C10_cartesian_is_rotation_of_that',
                                 'C10_cartesian_rotates_frenet', 'C10_tangent_slice_curl', 'C10_vacuum_tangent_slice_symmetric', 'C10_vacuum.C10_vacuum', 'C10_vacuum.C10_sym23', 'C10_vacuum.C10_harmonic'])
